@@ -7,6 +7,9 @@ VALUES = ["example.com", "Mozilla/5.0 (X11; Linux) Firefox/10.0", "curl/7.81", "
 
 
 def case_variant(R, name):
+    if not name.isascii():
+        # only ASCII letters fold: a non-ASCII name keeps its other characters exactly as written
+        return "".join((c.upper() if R.random() < 0.5 else c.lower()) if c.isascii() and R.random() < 0.3 else c for c in name)
     r = R.random()
     if r < 0.6:
         return name
@@ -93,8 +96,10 @@ def rand_http_sig(R, headers=None):
             items.append(n + (("=[%s]" % R.choice(["keep", "e", "Mozilla", ",", "a,b"])) if R.random() < 0.3 else ""))
     present = {h[0].lower() for h in headers} if headers else set()
     cand = [n for n in NAMES if n.lower() not in present] if R.random() < 0.8 else NAMES
+    exotic = [h[0] for h in headers if not h[0].isascii()] if headers else []
     absent = ",".join([case_variant(R, x) for x in R.sample(cand, min(len(cand), R.choice([0, 0, 1, 2])))] +
-                      ([R.choice(["\u00dc-Tag", "X-\u212aelvin", "\u0130d", "x-\u00e9t\u00c9"])] if R.random() < 0.1 else []))
+                      ([R.choice(["\u00dc-Tag", "X-\u212aelvin", "\u0130d", "x-\u00e9t\u00c9"])] if R.random() < 0.1 else []) +
+                      ([case_variant(R, R.choice(exotic))] if exotic and R.random() < 0.5 else []))
     sw = R.choice(["", "", "Firefox/", "curl", "Apache", "MSIE", "nginx", " Chrom", " Chrom", "Chrom", " Safari", "E 8", " ;y"])
     return ":".join([ver, ",".join(items), absent, sw])
 
